@@ -4,7 +4,10 @@
 (* gcc-compiled program built from the real CCodeMapper's text and hoisted *)
 (* assignments is judged by TLC against Eval (M-layer) inside the          *)
 (* statement's fragment and range (C14_CSem!JudgeC).  One record =         *)
-(*   [id, frag, e, ex, ce, text, hoists, pv, r]                            *)
+(*   [id, frag, e, rep, ex, ce, text, hoists, pv, r]                       *)
+(* rep = the representation the driver built the tree's constants in       *)
+(* (C14_CSem!Reps); the tree e, its meaning and the verdict rule are the   *)
+(* same for every representation.                                          *)
 (* ex = exception class raised by the mapper ("" if none), ce = 1 when gcc *)
 (* rejected the case's function, r[i] / pv[i] = program's / evaluator's    *)
 (* value in environment i.  Verdicts are total: OK (silent), a failing     *)
@@ -60,7 +63,7 @@ Report ==
       THEN (IF Speaks(rec) THEN PrintT(ToJson([id |-> rec.id, v |-> "c-compile-error", env |-> 0]))
             ELSE PrintT(ToJson([v |-> "STAT", skip |-> n, skipo |-> 0])))
       ELSE
-      LET ja == JudgeAll(rec.e, rec.frag, rec.r, rec.pv)
+      LET ja == JudgeAllR(rec.e, rec.frag, rec.r, rec.pv, rec.rep)
       IN  /\ (ja.bad = "" \/ PrintT(ToJson([id |-> rec.id, v |-> ja.bad, env |-> ja.env,
                                               exp |-> Eval(rec.e, EnvsOf(rec.frag)[ja.env])])))
           /\ (ja.skip = 0 \/ PrintT(ToJson([v |-> "STAT", skip |-> ja.skip, skipo |-> ja.skipo])))
